@@ -88,9 +88,6 @@ func (r *c19) Exec(op []string) string {
 			r.st.Note("public-repeated-value")
 		}
 		r.seen[v] = true
-		if r.size >= 65 && len(r.seen) == 8*r.size {
-			r.st.Note("size>=65-and-D/size>=8")
-		}
 		r.c.Add(v)
 		switch {
 		case distinct.VerifP(r.c) != math.MaxUint64:
@@ -127,6 +124,9 @@ func (r *c19) Exec(op []string) string {
 			r.st.Note("repeated-value")
 		}
 		r.seen[v] = true
+		if r.size >= 65 && len(r.seen) == 8*r.size {
+			r.st.Note("size>=65-and-D/size>=8")
+		}
 		r.c.Add(v)
 		p1, n1 := distinct.VerifP(r.c), r.c.Len()
 		k := bits.LeadingZeros64(p1)
@@ -263,7 +263,7 @@ func genC19(g *G) {
 		keepBias := 1 + g.Intn(4) // coin keeps with probability keepBias/5
 		halveStyle := g.Intn(5)   // 0 random, 1 mostly keep-all, 2 mostly sparse, 3 mixed, 4 realistic coin too
 		for _, v := range vals {
-			if g.Chance(1, 60) {
+			if (!long && g.Chance(1, 60)) || (long && g.Chance(1, 4000)) { // (a Reset every 60 adds would keep D/size small)
 				ops = append(ops, "rst")
 				ctr.Reset()
 			}
